@@ -1,6 +1,7 @@
 package main
 
-// jsonfast.go: the FAST PATHS of (*oj.Parser).parseBuffer and (*gen.Parser).parseBuffer as facts.
+// jsonfast.go: the FAST PATHS of (*oj.Parser).parseBuffer, (*gen.Parser).parseBuffer, (*oj.Validator).validateBuffer
+// and (*oj.Tokenizer).tokenizeBuffer as facts.
 //
 // lean/OjgVerif/Json/BufModel.lean transcribes one call of parseBuffer on one buffer including the inner
 // loops (whitespace skip behind a newline, string scan, literal look-ahead, integer loop, fraction loop).
@@ -230,20 +231,25 @@ func jfLeanBytes(s string) string {
 func extractJsonFast(repo, out string) ([]string, error) {
 	fset := token.NewFileSet()
 	var b strings.Builder
-	b.WriteString("/- GENERATED by /verif/tools/extract (jsonfast.go) from oj/parser.go, gen/parser.go — do not edit; rewritten on every run. -/\n")
+	b.WriteString("/- GENERATED by /verif/tools/extract (jsonfast.go) from oj/parser.go, gen/parser.go, oj/validator.go, oj/tokenizer.go — do not edit; rewritten on every run. -/\n")
 	b.WriteString("namespace OjgVerif.Gen.JsonFast\n\n")
 	b.WriteString("/-- a literal look-ahead `off+guardN <= len(buf) && string(buf[off:off+sliceN]) == text`, then `off += offInc` -/\n")
 	b.WriteString("structure Lit where\n  label : String\n  text : List UInt8\n  guardN : Nat\n  sliceN : Nat\n  offInc : Nat\n  deriving DecidableEq, Repr\n\n")
-	for _, r := range []struct{ lean, dir string }{{"ojParser", "oj"}, {"genParser", "gen"}} {
-		f, err := parser.ParseFile(fset, filepath.Join(repo, r.dir, "parser.go"), nil, 0)
+	for _, r := range []struct{ lean, dir, file, typ, fn string }{
+		{"ojParser", "oj", "parser.go", "Parser", "parseBuffer"},
+		{"genParser", "gen", "parser.go", "Parser", "parseBuffer"},
+		{"ojValidator", "oj", "validator.go", "Validator", "validateBuffer"},
+		{"ojTokenizer", "oj", "tokenizer.go", "Tokenizer", "tokenizeBuffer"},
+	} {
+		f, err := parser.ParseFile(fset, filepath.Join(repo, r.dir, r.file), nil, 0)
 		if err != nil {
 			return nil, err
 		}
-		sw, _, err := senSwitch(f, "Parser", "parseBuffer")
+		sw, _, err := senSwitch(f, r.typ, r.fn)
 		if err != nil {
 			return nil, err
 		}
-		fd := senFuncDecl(f, "Parser", "parseBuffer")
+		fd := senFuncDecl(f, r.typ, r.fn)
 		// the loop around the switch
 		var loop *ast.ForStmt
 		ast.Inspect(fd.Body, func(n ast.Node) bool {
@@ -270,8 +276,8 @@ func extractJsonFast(repo, out string) ([]string, error) {
 		if loop.Body.List[1] != ast.Stmt(sw) {
 			return nil, fmt.Errorf("jsonfast: %s: the switch is not the second statement of the buffer loop", r.dir)
 		}
-		fmt.Fprintf(&b, "/-- `for <init>; <cond>; <post> { <first statement>; switch … }` of (*%s.Parser).parseBuffer -/\ndef %sLoop : List String := %s\n\n", r.dir, r.lean, senLeanList(loopLines))
-		fmt.Fprintf(&b, "/-- the case clauses of (*%s.Parser).parseBuffer that have a fast path: label and printed statements -/\ndef %sFast : List (String × List String) := [\n", r.dir, r.lean)
+		fmt.Fprintf(&b, "/-- `for <init>; <cond>; <post> { <first statement>; switch … }` of (*%s.%s).%s -/\ndef %sLoop : List String := %s\n\n", r.dir, r.typ, r.fn, r.lean, senLeanList(loopLines))
+		fmt.Fprintf(&b, "/-- the case clauses of (*%s.%s).%s that have a fast path in one of the front-ends: label and printed statements -/\ndef %sFast : List (String × List String) := [\n", r.dir, r.typ, r.fn, r.lean)
 		var lits []jfLit
 		for i, lb := range jfFastLabels {
 			cc := senCaseClause(sw, lb)
